@@ -17,13 +17,21 @@ PROPS: Dict[str, Dict[str, Any]] = {
     "C01": {"theorems": ["C01_never_raises_partial", "gate_noexn", "unionStep_clean", "seqStep_clean", "seqStep_clean_set",
                          "seqPre_clean", "ntupleStep_clean", "mapStep_clean", "recordStep_clean", "scalarStep_clean",
                          "maybeStep_clean", "knrStep_clean", "userStep_clean", "Safe_list_typed", "Safe_str_typed",
-                         "C05_recursive_terminates", "run_mono"],
+                         "C05_recursive_terminates", "run_mono",
+                         "C01_terminates_lazyfree", "C01_terminates_partial", "C01_total_partial", "unguarded_diverges",
+                         "term_guarded", "seqPre_small", "recPre_small", "mapPre_small", "ntuplePre_small"],
+            "modules": ["KodaModel.Properties.C01", "KodaModel.Properties.C01Term"],
             "level_note": "proved: every run (any fuel, nesting, recursion through Lazy) of a tree of *any* validator kinds whose "
                           "nodes satisfy their side condition (own predicates / processors do not raise on what the gate lets "
                           "through; set members and map keys hashable; for maps and records the container level `mapPre` / "
                           "`recPre` does not raise) ends in Valid or Invalid; side conditions discharged for the typed string and "
-                          "list predicates; termination in general is decided by the correspondence and the oracle only; D2 / "
-                          "D3 are the open findings where the real code does raise",
+                          "list predicates; termination: a Lazy-free tree returns on every value with fuel height+1 "
+                          "(C01_terminates_lazyfree), and in an environment of guarded recursive definitions (every Lazy below "
+                          "a container position; user-written container coercers only above Lazy-free children) every guarded "
+                          "tree returns on every value (C01_terminates_partial, well-founded recursion on value size); an "
+                          "unguarded self-reference never returns (unguarded_diverges) - the excluded case; C01_total_partial "
+                          "combines both: Safe + guarded => Valid or Invalid on every value; D2 / D3 / D28 are the open findings "
+                          "where the real code does raise",
             "stream": "core", "opts": {"salt": "c01", "special_rate": 0.05, "zero_factor_rate": 0.12},
             "quick_n": 8000, "thorough_n": 200000, "fields": ["out"]},
     "C03": {"theorems": ["loopItems_iff", "ItemsRun.sound", "ItemsRun.complete", "ItemsRun.sorted", "ItemsRun.length",
